@@ -400,6 +400,7 @@ package db
 //@ func (*collection).validateOneToOneLinkDoesntAlreadyExist -> (err)
 //@   assert before call#1 makeSelectionPlan: arg0 == c && arg2 == box(res(Sprintf, 1, 0))
 //@   assert before call#1 makeSelectionPlan: callarg(Sprintf, 1, 1)[1] == box(docID) && callarg(Sprintf, 1, 1)[2] == box(fieldDescription.Name) && callarg(Sprintf, 1, 1)[3] == value && len(callarg(Sprintf, 1, 1)) == 4
+//@   assert before call#1 GetFieldByRelation: arg1 == fieldDescription.RelationName && arg2 == res(Name, 1, 0) && callarg(Name, 1, 0) == c && arg3 == res(GetFieldByName, 1, 0).Name
 //@   assert before call#1 Init: arg0 == res(makeSelectionPlan, 1, 0)
 //@   assert before call#1 Start: arg0 == res(makeSelectionPlan, 1, 0)
 //@   assert before call#1 Next: arg0 == res(makeSelectionPlan, 1, 0)
